@@ -1,24 +1,24 @@
 CONSTANTS
-  CodeKeys = FALSE
+  CodeKeys = TRUE
   HasFV = TRUE
   HasImages = TRUE
   StoreFailed = FALSE
-  PosKeyMode = "rel"
+  PosKeyMode = "abs"
   IdxKeyMode = "abs"
   ImgKeepMode = "none"
   LookupsCap = 0
-  MaxDepth = 1
-  MaxDepthDmg = 1
+  MaxDepth = 3
+  MaxDepthDmg = 2
   MaxDepthCollide = 2
-  Families = {"collide"}
+  Families = {"img"}
   ImgCounts = {2, 3}
-  ImgFilterMode = "own"
-  MaxImgFilters = 3
+  ImgFilterMode = "all"
+  MaxImgFilters = 2
   FillKeys = 150
   FillLangs = 100
   FillLookups = 150
   MaxDepthScopes = 2
 SPECIFICATION Spec
 VIEW View
-INVARIANTS EmitCase
+INVARIANTS ModelExact EmitCase
 CHECK_DEADLOCK FALSE
